@@ -130,6 +130,7 @@ func runApplyTo(rw *rewrite.Rewriter, schemas ast.Schemas, bs []ast.Builder, lan
 }
 
 func c17Row(cs c17Case) (req, impl, verdict string) {
+	c17Stats = ""
 	if anyAliasCycle(cs.schemas) {
 		return "-", "skipped-alias-cycle", "ok"
 	}
@@ -230,7 +231,7 @@ func init() {
 		for i := 0; i < n; i++ {
 			c := caseID{seed: seed, idx: i, mode: "v", tier: tier}
 			req, impl, verdict := c17Row(c17Gen17(c))
-			fmt.Fprintf(out, "%s\t%s\t%s\t%s\n", req, impl, tagCase(verdict, c), c.String())
+			fmt.Fprintf(out, "%s\t%s\t%s\t%s\t%s\n", req, impl, tagCase(verdict, c), c.String(), c17Stats)
 		}
 		return nil
 	})
